@@ -785,6 +785,140 @@ def rule_lazy_members(rep, program: Program, prop=PROP, rule="R9", only=None):
     return r
 
 
+def rule_r12(rep, program: Program):
+    """Scaling a matrix that already holds a packed LU factorisation `P L U` (L unit lower triangular, stored strictly
+    below the diagonal; U on and above it) by c scales U - diagonal included - and leaves L alone: the forwarded array
+    must be (strict lower, diagonal, strict upper) = (1, k, k) times the old one, where k is the factor applied to the
+    dense array (c for the matrix, 1/c for its stored inverse).  Evaluated in a three-part coefficient domain."""
+    from ..model import expand_locals, single_assignment_locals
+    from ..poly import Rat, eval_expr
+
+    r = rep.rule("R12", "a scalar multiple forwards the packed LU factors with the upper factor (diagonal included) scaled like the dense array and the unit lower factor unchanged", floor=2)
+
+    def mask(e, env):
+        """-> (strict lower, diagonal, strict upper) in {0, 1} for a boolean triangle mask expression"""
+        if isinstance(e, ast.Name) and e.id in env:
+            return mask(env[e.id], env)
+        if isinstance(e, ast.UnaryOp) and isinstance(e.op, (ast.Invert, ast.Not)):
+            m = mask(e.operand, env)
+            return tuple(1 - x for x in m)
+        if isinstance(e, ast.Attribute) and e.attr == "T":
+            m = mask(e.value, env)
+            return (m[2], m[1], m[0])
+        if isinstance(e, ast.Call):
+            cn = call_name(e)
+            kw = {k.arg: k.value for k in e.keywords}
+            if cn == "np.tri":
+                kk = kw.get("k")
+                kv = 0 if kk is None else (kk.value if isinstance(kk, ast.Constant) else (-kk.operand.value if isinstance(kk, ast.UnaryOp) and isinstance(kk.op, ast.USub) and isinstance(kk.operand, ast.Constant) else None))
+                if kv == 0:
+                    return (1, 1, 0)
+                if kv == -1:
+                    return (1, 0, 0)
+                if kv == 1:
+                    raise AnalysisError("np.tri(k=1) is not a triangle of the three-part domain")
+            if cn in ("np.tril", "np.triu") and e.args and isinstance(e.args[0], ast.Call) and call_name(e.args[0]) in ("np.ones", "np.ones_like", "np.full"):
+                kv = _tri_k(e)
+                if cn == "np.tril":
+                    return {0: (1, 1, 0), -1: (1, 0, 0)}[kv]
+                return {0: (0, 1, 1), 1: (0, 0, 1)}[kv]
+        raise AnalysisError(f"triangle mask `{norm(e)[:50]}` outside the grammar")
+
+    def _tri_k(e):
+        kk = e.args[1] if len(e.args) > 1 else next((k.value for k in e.keywords if k.arg == "k"), None)
+        if kk is None:
+            return 0
+        if isinstance(kk, ast.Constant):
+            return kk.value
+        if isinstance(kk, ast.UnaryOp) and isinstance(kk.op, ast.USub) and isinstance(kk.operand, ast.Constant):
+            return -kk.operand.value
+        raise AnalysisError(f"triangle offset `{norm(kk)}` not a constant")
+
+    def parts(e, base, env):
+        """coefficients (Rat, Rat, Rat) of (strict lower, diagonal, strict upper) of `base` in the array expression e"""
+        if isinstance(e, ast.Name):
+            if e.id == base:
+                one = Rat.const(1)
+                return (one, one, one)
+            if e.id in env:
+                return parts(env[e.id], base, env)
+        if isinstance(e, ast.BinOp):
+            if isinstance(e.op, (ast.Add, ast.Sub)):
+                a, b = parts(e.left, base, env), parts(e.right, base, env)
+                return tuple(x + y if isinstance(e.op, ast.Add) else x - y for x, y in zip(a, b))
+            if isinstance(e.op, (ast.Mult, ast.Div)):
+                for arr, sc, right in ((e.right, e.left, False), (e.left, e.right, True)):
+                    try:
+                        c = eval_expr(sc, {})
+                    except AnalysisError:
+                        continue
+                    if isinstance(e.op, ast.Div) and not right:
+                        continue
+                    a = parts(arr, base, env)
+                    return tuple(x / c if isinstance(e.op, ast.Div) else x * c for x in a)
+        if isinstance(e, ast.UnaryOp) and isinstance(e.op, ast.USub):
+            return tuple(-x for x in parts(e.operand, base, env))
+        if isinstance(e, ast.Call):
+            cn = call_name(e)
+            if cn in ("np.triu", "np.tril") and e.args:
+                a = parts(e.args[0], base, env)
+                kv = _tri_k(e)
+                z = Rat.const(0)
+                if cn == "np.triu":
+                    m = {0: (0, 1, 1), 1: (0, 0, 1), -1: None}.get(kv)
+                else:
+                    m = {0: (1, 1, 0), -1: (1, 0, 0), 1: None}.get(kv)
+                if m is None:
+                    raise AnalysisError(f"`{norm(e)[:40]}`: offset outside the three-part domain")
+                return tuple(x if mm else z for x, mm in zip(a, m))
+            if cn == "np.where" and len(e.args) == 3:
+                m = mask(e.args[0], env)
+                a, b = parts(e.args[1], base, env), parts(e.args[2], base, env)
+                return tuple(x if mm else y for x, y, mm in zip(a, b, m))
+            if cn in ("np.copy", "np.array", "np.asarray") and e.args:
+                return parts(e.args[0], base, env)
+            if isinstance(e.func, ast.Attribute) and e.func.attr == "copy" and not e.args:
+                return parts(e.func.value, base, env)
+        raise AnalysisError(f"LU expression `{norm(e)[:60]}` outside the three-part grammar")
+
+    for cname, lu_attr, arr_attr in (("DenseSquareMatrix", "_lu_and_piv", "_array"), ("InverseLUFactoredSquareMatrix", "_inv_lu_and_piv", "_inv_array")):
+        k = program.cls(cname)
+        f = k.methods.get("_scalar_multiply")
+        if f is None:
+            raise AnalysisError(f"{cname}._scalar_multiply not found")
+        env = single_assignment_locals(f.node)
+        base = None
+        for n in ast.walk(f.node):
+            if isinstance(n, ast.Assign) and isinstance(n.targets[0], ast.Tuple) and norm(n.value) in (f"self.{lu_attr}", f"self.{lu_attr[1:]}") and isinstance(n.targets[0].elts[0], ast.Name):
+                base = n.targets[0].elts[0].id
+        calls = [c for c in ast.walk(f.node) if isinstance(c, ast.Call) and call_name(c) in ("DenseSquareMatrix", "InverseLUFactoredSquareMatrix", "type(self)") and any(isinstance(a, ast.Tuple) and len(a.elts) == 2 for a in list(c.args) + [kw.value for kw in c.keywords])]
+        if base is None or not calls:
+            raise AnalysisError(f"{cname}._scalar_multiply: forwarded LU factors not found")
+        for c in calls:
+            allargs = list(c.args) + [kw.value for kw in c.keywords]
+            lu_t = next(a for a in allargs if isinstance(a, ast.Tuple) and len(a.elts) == 2)
+            arr = c.args[0] if c.args else next(kw.value for kw in c.keywords if kw.arg in ("array", "inv_array"))
+            # factor applied to the dense array
+            kf = None
+            arr_x = expand_locals(arr, env)
+            if isinstance(arr_x, ast.BinOp) and isinstance(arr_x.op, (ast.Mult, ast.Div)):
+                if norm(arr_x.right) == f"self.{arr_attr}" and isinstance(arr_x.op, ast.Mult):
+                    kf = eval_expr(arr_x.left, {})
+                elif norm(arr_x.left) == f"self.{arr_attr}":
+                    sc = eval_expr(arr_x.right, {})
+                    kf = sc if isinstance(arr_x.op, ast.Mult) else Rat.const(1) / sc
+            if kf is None:
+                raise AnalysisError(f"{cname}._scalar_multiply: factor of the dense array `{norm(arr)[:40]}` not recognised")
+            got = parts(lu_t.elts[0], base, env)
+            want = (Rat.const(1), kf, kf)
+            ok = all(g.equals(w) for g, w in zip(got, want))
+            r.inst({"class": cname, "dense array scaled by": repr(kf), "packed LU (strict lower, diagonal, strict upper) scaled by": [repr(g) for g in got]})
+            if not ok:
+                which = [nm for nm, g, w in zip(("the unit lower factor", "the diagonal of U", "the strict upper part of U"), got, want) if not g.equals(w)]
+                r.violate(PROP, f"{cname}._scalar_multiply:lu-scaling:{[repr(g) for g in got]}"[:150], f"{cname}._scalar_multiply scales the dense array by {kf!r} but forwards LU factors whose (strict lower, diagonal, strict upper) parts are scaled by {[repr(g) for g in got]} (wrong: {', '.join(which)}): log_abs_det and every solve of the scaled matrix then disagree with its array - but only for operands that already held an LU factorisation", node=c, file=f.file)
+    return r
+
+
 def run(rep, program: Program, tier: str) -> None:
     rep.explanation = (
         "Symbolic evaluation of the members of 17 matrix classes in an exact non-commutative "
@@ -798,6 +932,7 @@ def run(rep, program: Program, tier: str) -> None:
         "members based on comprehensions over blocks, LU factorisations, eigendecompositions of dense arrays and the hierarchical square root are outside the algebra (listed in coverage.members_outside_algebra); agreement with LAPACK numerics and conditioning are not decided",
     ]
     rep.isolate(rule_algebra, rep, program)
+    rep.isolate(rule_r12, rep, program)
     rep.isolate(rule_blocks, rep, program, tier)
     rep.isolate(rule_lu_typestate, rep, program)
     rep.isolate(rule_parity, rep, program)
